@@ -10,6 +10,13 @@ Scenario lines (see lean/DesperModel/Loop.lean for the model's reading of the sa
                                                     f8 (default) the float r/8.0, int the Python int r
                                                     (any size: ns clocks above 2**53), frac the exact
                                                     Fraction(r, 7); readings may be negative / decrease
+    identity <h> eq=<g|-> hash=<g|none> truth=<t|bool|len> world=<t|bool|len>
+                                                    Python protocol dressing of handle h and of its worlds
+                                                    (the scenario means the same with or without it):
+                                                    handles with the same eq group compare `==` (value
+                                                    objects), hash=g hashes alike / hash=none unhashable
+                                                    (__eq__ only); truth=bool: __bool__ is False, len:
+                                                    __len__ is 0; world=.. the same for the handle's worlds
     react <n> <act>                                 what the callback of the n-th delivery (0-based,
                                                     counted over the whole scenario) does
     op load <h>                                     handle()
@@ -85,6 +92,10 @@ def parse(lines):
             reacts.setdefault(int(t[1]), t[2:])
         elif t[0] == 'clock':
             assert t[1] in CLOCKS, ln
+        elif t[0] == 'identity':
+            d = dict(x.split('=', 1) for x in t[2:])
+            assert set(d) == {'eq', 'hash', 'truth', 'world'}, ln
+            handles[int(t[1])]['identity'] = d
         elif t[0] == 'op':
             if t[1] == 'start':
                 ops.append(['start', []])
@@ -133,6 +144,14 @@ def enc_dt(dt, unit=Fraction(1, 8)):
     except (TypeError, ValueError, OverflowError):
         return f'{type(dt).__name__}:{dt!r}'
     return str(v.numerator) if v.denominator == 1 else f'{v.numerator}/{v.denominator}'
+
+
+def truth_ns(kind):
+    if kind == 'bool':
+        return {'__bool__': lambda self: False}
+    if kind == 'len':
+        return {'__len__': lambda self: 0}
+    return {}
 
 
 def exc_name(e):
@@ -287,8 +306,23 @@ class Run:
         def load(self):
             self._nloads += 1
             run.obs.append(f'load {hid}#{self._nloads}')
-            return WorldHandle.load(self)
-        h = type('ScenarioHandle', (WorldHandle,), {'load': load})()
+            world = WorldHandle.load(self)
+            if ident['world'] != 't':
+                # the handle's worlds are instances of a World subclass with this truth value
+                world.__class__ = type('ScenarioWorld', (desper.World,), truth_ns(ident['world']))
+            return world
+        ident = decl.get('identity') or {'eq': '-', 'hash': 'g', 'truth': 't', 'world': 't'}
+        ns = {'load': load}
+        ns.update(truth_ns(ident['truth']))
+        if ident['eq'] != '-':
+            group = ident['eq']
+
+            def __eq__(self, other):
+                return getattr(other, '_eqgroup', None) == group
+            ns['__eq__'] = __eq__
+            ns['_eqgroup'] = group
+            ns['__hash__'] = None if ident['hash'] == 'none' else (lambda self: hash(('group', group)))
+        h = type('ScenarioHandle', (WorldHandle,), ns)()
         h._hid, h._nloads = hid, 0
         h.transform_functions.append(populate)
         return h
